@@ -269,7 +269,7 @@ def final_sigma(ex, b, law_syms):
     sigma, multi = sigma_of(b.subs_log, law_syms)
     conflicts = []
     for k, v in expected_sigma(ex, law_syms).items():
-        if k in sigma and sigma[k] != v and sigma[k].is_Symbol:
+        if k in sigma and sigma[k] != v:      # also when the body substitutes an *expression* of the argument (phi % pi)
             conflicts.append((str(k), str(sigma[k]), str(v)))
             sigma[k] = v
         elif k not in sigma and (ex.laws_by_default or not b.subs_log):
